@@ -194,3 +194,27 @@ def rsa_width_anchor(ctx):
 FLOORS["R01.6"] = 1
 FLOORS["R01.3"] = 2
 FLOORS["R01.4"] = 3
+
+# ---- shared rules: the text form and the built-in claims codec are part of the round trip Display -> FromStr -> unseal -> decode
+class _Scratch:
+    def __init__(s, ctx): s.findings = []; s.world = ctx.world; s.crates = ctx.crates; s.analysed = {"functions": 0, "paths": 0, "call_sites": 0}; s.notes = []; s.tier = ctx.tier; s.facts_dir = ctx.facts_dir
+    def add(s, rule, k, ok, detail="", site=None, facts=None): s.findings.append((rule, k, ok, detail, site))
+    def sample(s, x): pass
+
+_run_core = run
+def run(ctx):
+    _run_core(ctx)
+    import b64rules, c14
+    sc = _Scratch(ctx)
+    b64rules.check_encoder(sc)
+    for (rule, k, ok, detail, site) in sc.findings:
+        # R01.7 (shared with C09 R09.7): what to_string() prints is the base64url of the whole payload (one-pass encoder)
+        ctx.add("R01.7", "C01/text-encoder/" + k.rsplit("/", 1)[-1], ok, detail, site)
+    sc = _Scratch(ctx)
+    c14.run(sc)
+    for (rule, k, ok, detail, site) in sc.findings:
+        if rule in ("R14.1", "R14.2", "R14.3"):
+            # R01.8 (shared with C14): the built-in claims payload is written and read through the same member table
+            ctx.add("R01.8", "C01/claims-codec/" + k.split("/", 1)[-1], ok, detail, site)
+FLOORS["R01.7"] = 2
+FLOORS["R01.8"] = 4
